@@ -16,13 +16,14 @@ from .interp import Engine, PyExc, FuncValue
 from .loader import Loader
 
 
-def case_product(h):
+def case_product(h, tier="thorough"):
     """enumerate the concrete cases of a harness: Choice values and length tuples"""
     keys, lists = [], []
     for k, d in h.inputs.items():
         if isinstance(d, api.Choice):
             keys.append(k)
-            lists.append([("choice", v) for v in d.values])
+            vals = d.quick if (tier == "quick" and d.quick is not None) else d.values
+            lists.append([("choice", v) for v in vals])
         elif isinstance(d, (api.HexStr, api.BinStr)) and isinstance(d.n, tuple):
             keys.append(k)
             lists.append([("len", n) for n in d.n])
@@ -84,6 +85,7 @@ def make_input(E, name, dom, case):
     if isinstance(dom, api.RealRange):
         t = z3.Real(name)
         lo, hi = Fraction(dom.lo), Fraction(dom.hi)
+        E.real_boxes[name] = (lo, hi)
         E.ps.add(z3.And(t >= z3.Q(lo.numerator, lo.denominator), t <= z3.Q(hi.numerator, hi.denominator)))
 
         def dec(m, t=t):
@@ -142,6 +144,7 @@ def prove_case(hid, case, timeout_ms, common_impl="py", exclude_regions=(), max_
             raise RuntimeError("harness %s is not a function in the symbolic view" % hid)
         E = Engine(loader, timeout_ms=timeout_ms)
         E.contracts = build_contracts(loader, h)
+        E.backend = h.backend
         E.contract_uses = {}
         region_fvs = [mod.globals[r] for r in exclude_regions]
 
@@ -174,7 +177,9 @@ def prove_case(hid, case, timeout_ms, common_impl="py", exclude_regions=(), max_
         for r in records:
             for c in r["checks"]:
                 d = checks.setdefault(c["label"], {"proved": 0, "refuted": 0, "unknown": 0, "seconds": 0.0,
-                                                   "backends": {}, "models": []})
+                                                   "backends": {}, "models": [], "details": []})
+                if c.get("detail") is not None and len(d["details"]) < 3:
+                    d["details"].append(c["detail"])
                 d[c["status"]] += 1
                 d["seconds"] += c["seconds"]
                 d["backends"][c["backend"]] = d["backends"].get(c["backend"], 0) + 1
